@@ -108,6 +108,7 @@ Variable max_result_chars : nat.
 
 Notation eval_args' := (eval_args value eval_tpl).
 Notation match_case' := (match_case value eval_tpl to_xtext registered test lc).
+Notation route_via' := (route_via lc max_result_chars).
 Notation route_to_category' := (route_to_category lc max_result_chars).
 Notation route_switch' := (route_switch value eval_tpl to_xtext registered test lc max_result_chars).
 Notation route_timeout' := (route_timeout lc max_result_chars).
@@ -163,15 +164,22 @@ Definition through (b : base_router) (prev : option result) (c : category) (valu
 
 (* ---- routeToCategory -------------------------------------------------------------------------------------- *)
 
+(* routeVia is "leaving through the category" *)
+Lemma route_via_through b prev c mtch operand extra evs :
+  route_via' b prev c mtch operand extra evs = through b prev c mtch operand extra evs.
+Proof.
+  unfold route_via, through, result_for, named.
+  destruct (b_result_name b) as [|ch name]; cbn [andb].
+  - rewrite app_nil_r. reflexivity.
+  - reflexivity.
+Qed.
+
 Lemma route_to_category_found b prev cat mtch operand extra evs c :
   cat <> no_uuid -> find_category (b_categories b) cat = Some c ->
   route_to_category' b prev cat mtch operand extra evs = through b prev c mtch operand extra evs.
 Proof.
-  intros Hne Hf. unfold route_to_category, through, result_for, named.
-  apply N.eqb_neq in Hne. rewrite Hne, Hf.
-  destruct (b_result_name b) as [|ch name]; cbn [andb].
-  - rewrite app_nil_r. reflexivity.
-  - reflexivity.
+  intros Hne Hf. unfold route_to_category.
+  apply N.eqb_neq in Hne. rewrite Hne, Hf. apply route_via_through.
 Qed.
 
 Lemma route_to_category_none b prev mtch operand extra evs :
@@ -436,8 +444,7 @@ Theorem route_random_spec b d prev :
   /\ Qfloor (draw_Q d * inject_Z (Z.of_N n)) = Z.of_N idx
   /\ idx < n
   /\ exists c, nth_error (b_categories b) (N.to_nat idx) = Some c
-       /\ route_random' b d prev
-          = route_to_category' b prev (c_uuid c) (N_to_text idx) (draw_text d) None [].
+       /\ route_random' b d prev = through b prev c (N_to_text idx) (draw_text d) None [].
 Proof.
   intros n idx Hr Hn.
   split; [apply random_index_floor|].
@@ -445,37 +452,8 @@ Proof.
   pose proof (random_index_lt d n Hr Hn) as Hlt. fold idx in Hlt.
   split; [exact Hlt|].
   destruct (nth_error (b_categories b) (N.to_nat idx)) as [c|] eqn:E.
-  - exists c. split; [reflexivity|]. unfold route_random. fold n. fold idx. rewrite E. reflexivity.
+  - exists c. split; [reflexivity|]. unfold route_random. fold n. fold idx. rewrite E. apply route_via_through.
   - exfalso. apply nth_error_None in E. subst n. lia.
-Qed.
-
-(* with distinct category UUIDs the category found again by UUID is the indexed one *)
-Lemma find_category_nth cats i c :
-  NoDup (map c_uuid cats) -> nth_error cats i = Some c -> find_category cats (c_uuid c) = Some c.
-Proof.
-  revert i. induction cats as [|c0 rest IH]; intros i Hnd Hn; [destruct i; discriminate|].
-  cbn [find_category]. destruct i as [|i]; cbn [nth_error] in Hn.
-  - inversion Hn; subst. rewrite N.eqb_refl. reflexivity.
-  - cbn [map] in Hnd. inversion Hnd as [|? ? Hnotin Hnd']; subst.
-    destruct (N.eqb (c_uuid c0) (c_uuid c)) eqn:E.
-    + apply N.eqb_eq in E. exfalso. apply Hnotin. rewrite E. apply in_map. eapply nth_error_In; eassumption.
-    + eapply IH; eassumption.
-Qed.
-
-Theorem route_random_through b d prev :
-  let n := N.of_nat (length (b_categories b)) in
-  let idx := random_index d n in
-  d_mant d < 10 ^ d_scale d -> 0 < n ->
-  NoDup (map c_uuid (b_categories b)) -> Forall (fun c => c_uuid c <> no_uuid) (b_categories b) ->
-  exists c, nth_error (b_categories b) (N.to_nat idx) = Some c
-    /\ route_random' b d prev = through b prev c (N_to_text idx) (draw_text d) None [].
-Proof.
-  intros n idx Hr Hn Hnd Hnz.
-  destruct (route_random_spec b d prev Hr Hn) as (_ & _ & _ & c & Hc & Heq).
-  exists c. split; [exact Hc|]. fold n idx in Heq. rewrite Heq.
-  apply route_to_category_found.
-  - rewrite Forall_forall in Hnz. apply Hnz. eapply nth_error_In; exact Hc.
-  - eapply find_category_nth; eassumption.
 Qed.
 
 (* a random router without categories (rejected when a definition is read) indexes an empty slice *)
@@ -581,6 +559,15 @@ Qed.
 (* ---- consistency: exit in the path = exit in the segment = exit of the saved category ------------------------------------ *)
 
 (* whatever a router saves names one of its categories, and the exit it answers is that category's *)
+Lemma route_via_saved b prev c mtch operand extra evs r :
+  ro_saved (route_via' b prev c mtch operand extra evs) = Some r ->
+  r = result_for b c mtch operand extra
+  /\ ro_res (route_via' b prev c mtch operand extra evs) = RExit (c_exit c) operand.
+Proof.
+  rewrite route_via_through. unfold through. destruct (named b); cbn [ro_saved ro_res]; [|discriminate].
+  intros H; inversion H. split; reflexivity.
+Qed.
+
 Lemma route_to_category_saved b prev cat mtch operand extra evs r :
   ro_saved (route_to_category' b prev cat mtch operand extra evs) = Some r ->
   exists c, find_category (b_categories b) cat = Some c /\ cat <> no_uuid
@@ -589,10 +576,8 @@ Lemma route_to_category_saved b prev cat mtch operand extra evs r :
 Proof.
   unfold route_to_category. destruct (N.eqb cat no_uuid) eqn:E; [discriminate|].
   destruct (find_category (b_categories b) cat) as [c|] eqn:Hf; [|discriminate].
-  destruct (b_result_name b) as [|ch name] eqn:Hn; [discriminate|].
-  cbn [ro_saved ro_res]. intros H; inversion H; subst. exists c.
-  repeat split; [apply N.eqb_neq; exact E|].
-  unfold result_for. rewrite Hn. reflexivity.
+  intros H. destruct (route_via_saved _ _ _ _ _ _ _ _ H) as [Hr Hres]. exists c.
+  split; [reflexivity|]. split; [apply N.eqb_neq; exact E|]. split; assumption.
 Qed.
 
 Lemma route_switch_saved b operand_tpl cases default prev r :
@@ -686,10 +671,10 @@ Proof.
                + destruct (route_switch_saved _ _ _ _ _ _ Hs) as (c & u0 & Hin & _ & _ & Hn & Hc & Hl & _ & Hres').
                  rewrite Hres' in Hres. inversion Hres; subst. exists c. repeat split; assumption.
                + unfold route_random in Hs, Hres.
-                 destruct (nth_error (b_categories b) _) as [c0|]; [|discriminate].
-                 destruct (route_to_category_saved _ _ _ _ _ _ _ _ Hs) as (c & Hf & _ & -> & Hres').
+                 destruct (nth_error (b_categories b) _) as [c0|] eqn:Hnth; [|discriminate].
+                 destruct (route_via_saved _ _ _ _ _ _ _ _ Hs) as (-> & Hres').
                  rewrite Hres' in Hres. inversion Hres; subst.
-                 exists c. destruct (find_category_In _ _ _ Hf) as [Hin _]. repeat split; assumption. }
+                 exists c0. apply nth_error_In in Hnth. repeat split; assumption. }
            destruct Hcat as (c & H1 & H2 & H3 & H4 & H5). exists c. repeat split; assumption.
   - rewrite (pick_no_router nd is_timeout d timed_out_on prev Hr) in *.
     destruct (n_exits nd) as [|e rest] eqn:Hex; cbn [po_step_exit po_saved po_exit po_operand] in *.
@@ -845,7 +830,7 @@ Lemma route_to_category_unnamed b prev cat mtch operand extra evs :
   b_result_name b = [] -> ro_saved (route_to_category' b prev cat mtch operand extra evs) = None.
 Proof.
   intros Hn. unfold route_to_category. destruct (N.eqb cat no_uuid); [reflexivity|].
-  destruct (find_category (b_categories b) cat); [|reflexivity]. rewrite Hn. reflexivity.
+  destruct (find_category (b_categories b) cat); [|reflexivity]. unfold route_via. rewrite Hn. reflexivity.
 Qed.
 
 Lemma route_switch_unnamed b operand_tpl cases default prev :
@@ -983,22 +968,12 @@ Lemma random_spec b d prev :
   Qfloor (draw_Q d * inject_Z (Z.of_N n)) = Z.of_N idx
   /\ idx < n
   /\ exists c, nth_error (b_categories b) (N.to_nat idx) = Some c
-       (* the category is looked up again by its UUID: the first category carrying the UUID of category idx ... *)
-       /\ (forall c', category_with b (c_uuid c) c' ->
-             route_random' b d prev = through b prev c' (N_to_text idx) (draw_text d) None [])
-       (* ... which is category idx itself when category UUIDs are distinct *)
-       /\ (NoDup (map c_uuid (b_categories b)) -> c_uuid c <> no_uuid ->
-             route_random' b d prev = through b prev c (N_to_text idx) (draw_text d) None []).
+       /\ route_random' b d prev = through b prev c (N_to_text idx) (draw_text d) None [].
 Proof.
   intros n idx [_ Hr] Hn. apply draw_Q_lt_1 in Hr.
   destruct (route_random_spec b d prev Hr Hn) as (_ & Hfl & Hlt & c & Hc & Heq).
   fold n in Hfl, Hlt, Hc, Heq. fold idx in Hfl, Hlt, Hc, Heq.
-  split; [exact Hfl|]. split; [exact Hlt|].
-  exists c. split; [exact Hc|]. split.
-  - intros c' Hcat. apply category_with_find in Hcat. destruct Hcat as [Hne Hf].
-    rewrite Heq. apply route_to_category_found; assumption.
-  - intros Hnd Hne. rewrite Heq. apply route_to_category_found; [exact Hne|].
-    eapply find_category_nth; eassumption.
+  split; [exact Hfl|]. split; [exact Hlt|]. exists c. split; assumption.
 Qed.
 
 (* ---- sentence: "a node without a router [leaves] by its first exit" ---------------------------------------------- *)
@@ -1121,7 +1096,7 @@ Proof.
   unfold route_to_category. destruct (N.eqb cat no_uuid).
   - cbn [ro_res]. intros H; inversion H; reflexivity.
   - destruct (find_category (b_categories b) cat); [|discriminate].
-    destruct (b_result_name b); cbn [ro_res]; intros H; inversion H; reflexivity.
+    unfold route_via. destruct (b_result_name b); cbn [ro_res]; intros H; inversion H; reflexivity.
 Qed.
 
 Lemma route_switch_operand b operand_tpl cases default prev u op :
@@ -1163,7 +1138,7 @@ Proof.
     + eapply route_switch_operand. exact Hres.
     + unfold route_random in Hres.
       destruct (nth_error (b_categories b) _) as [c0|]; [|discriminate].
-      eapply route_to_category_operand. exact Hres.
+      rewrite route_via_through in Hres. unfold through in Hres. cbn [ro_res] in Hres. inversion Hres. reflexivity.
   - destruct (find_exit (n_exits nd) _); cbn [po_exit po_operand] in *; [reflexivity|discriminate].
 Qed.
 
